@@ -364,6 +364,8 @@ func (l *Lexer) readString() (string, int, int, int) {
 			if l.skipNewlineWhitespace() {
 				l.skipWhitespace()
 				sb.WriteRune(' ')
+				// The string may end right after the line break.
+				continue
 			}
 			sb.WriteRune(l.ch)
 			l.readChar()
